@@ -148,11 +148,11 @@ func (c *Condition) validate(env envs.Environment, resolver Resolver) error {
 
 	switch c.operator {
 	case OpContains:
-		if c.propKey == AttributeName {
+		if c.propType == PropertyTypeAttribute && c.propKey == AttributeName {
 			if len(tokenizeNameValue(c.value)) == 0 {
 				return NewQueryError(ErrInvalidPartialName, "contains operator on name requires token of minimum length %d", minNameTokenContainsLength).withExtra("min_token_length", strconv.Itoa(minNameTokenContainsLength))
 			}
-		} else if c.propKey == AttributeURN || c.propType == PropertyTypeURN {
+		} else if (c.propType == PropertyTypeAttribute && c.propKey == AttributeURN) || c.propType == PropertyTypeURN {
 			if len(c.value) < minURNContainsLength {
 				return NewQueryError(ErrInvalidPartialURN, "contains operator on URN requires value of minimum length %d", minURNContainsLength).withExtra("min_value_length", strconv.Itoa(minURNContainsLength))
 			}
